@@ -14,11 +14,11 @@ assert rc == 0, out
 try:
     head = sh("git -C /repo rev-parse --short HEAD")[1].strip()
     demo = os.path.join(src, "demo.py")
-    rc0, o0 = sh(f"/venv/bin/python {demo}", cwd=wt)
+    rc0, o0 = sh(f"PYTHONPATH={wt} /venv/bin/python {demo}", cwd=wt)
     rca, oa = sh(f"git apply {os.path.join(src, 'patch.diff')}", cwd=wt)
     if rca != 0:
         rca, oa = sh(f"git apply -3 {os.path.join(src, 'patch.diff')}", cwd=wt)
-    rc1, o1 = sh(f"/venv/bin/python {demo}", cwd=wt)
+    rc1, o1 = sh(f"PYTHONPATH={wt} /venv/bin/python {demo}", cwd=wt)
     rct, ot = sh("/venv/bin/python -m pytest -q -p no:cacheprovider --timeout=900 --continue-on-collection-errors 2>&1 | tail -1", cwd=wt)
     ok = rc0 == 0 and rca == 0 and rc1 != 0 and "1466 passed" in ot and "failed" not in ot
     print(f"{name}: demo_clean_rc={rc0} apply_rc={rca} demo_patched_rc={rc1} tests='{ot.strip()}' -> {'OK' if ok else 'REJECT'}")
